@@ -47,6 +47,11 @@ OPS = [
     (r"\bmin\(", "max(", "min->max"), (r"\bmax\(", "min(", "max->min"),
     (r"\bcontinue;", "break;", "continue->break"), (r"\bbreak;", "continue;", "break->continue"),
 ]
+# operators computed from the match (batch 3): negate an `if` condition, bump an integer literal
+FUNC_OPS = [
+    (r"\bif (?!let\b)([^{};]+?) \{$", lambda m: f"if !({m.group(1)}) {{", "negate-if"),
+    (r"(?<![\w.\"'#])(\d{1,6})(?![\w.\"'])", lambda m: str(int(m.group(1)) + 1), "int+1"),
+]
 DELETABLE = re.compile(r"^\s*(?:self\.|[a-z_]+\.)[\w.]*(?:remove|insert|push|release|clear|close|send|notify|drop|retain|truncate|extend)\w*\(.*\);\s*$")
 
 
@@ -85,6 +90,14 @@ def gen(outdir, per_file, seed):
                         continue
                     new = code[: m.start()] + rep + code[m.end():] + src[i][len(code):]
                     cands.append((i, new, name))
+            if os.environ.get("MUTATE_FUNC_OPS"):
+                for rx, fn, name in FUNC_OPS:
+                    for m in re.finditer(rx, code.rstrip()):
+                        if code[: m.start()].count('"') % 2 == 1:
+                            continue
+                        c2 = code.rstrip()
+                        new = c2[: m.start()] + fn(m) + c2[m.end():] + src[i][len(code):]
+                        cands.append((i, new, name))
             if DELETABLE.match(code) and "let " not in code:
                 cands.append((i, re.match(r"^\s*", code).group(0) + "// (deleted) " + code.strip(), "delete-stmt"))
         rng.shuffle(cands)
